@@ -1598,14 +1598,15 @@ class Exec:
                     if k not in keep and k not in _stored_names(node):
                         sh.loc[k] = None        # dead from here on (never read at or after the loop)
                 seen = ctx.loop_cuts.get(ordinal)
-                if seen is not None:
-                    if set(seen) != set(keep) or any(seen[k] is not keep[k] for k in keep):
-                        raise Unsupported("cut loop #%d entered with different locals (line %d)" % (ordinal, node.lineno))
+                same = seen is not None and set(seen) == set(keep) and all(seen[k] is keep[k] for k in keep)
+                if same:
                     continue
-                ctx.loop_cuts[ordinal] = keep
-                sh.pc, sh.hyps = list(ctx.old.pc), list(ctx.old.hyps)
-                sh.trace = [t for t in sh.trace if False] + ["cut@L%d" % node.lineno]
-                spec.cut_ghost(sh)
+                if seen is None:
+                    ctx.loop_cuts[ordinal] = keep
+                    sh.pc, sh.hyps = list(ctx.old.pc), list(ctx.old.hyps)
+                    sh.trace = ["cut@L%d" % node.lineno]
+                    spec.cut_ghost(sh)
+                # (an entry whose live locals differ from the first one is explored on its own, with its full path)
             spec.havoc(self, sh, node, ordinal)
             for item in spec.inv(self, entry, sh, "assume"):
                 sh.assume(item[1])
